@@ -89,9 +89,9 @@ Proof.
   intros f E. inversion E; subst f. destruct R3 as (Rt & _). destruct (Rt c) as (_ & _ & a & _ & b). rewrite a, b. auto.
 Qed.
 
-Lemma PH_die : forall s v rv s', Inv1 s -> PH s -> head_run s v -> do_die s v rv = Some s' -> PH s'.
+Lemma PH_die : forall s v rv s', Inv1 s -> Inv2 s -> PH s -> head_run s v -> do_die s v rv = Some s' -> PH s'.
 Proof.
-  intros s v rv s' I1 P Hr. unfold do_die, getvc, getth.
+  intros s v rv s' I1 I2 P Hr. unfold do_die, getvc, getth.
   destruct (v_runq (s_vc s v)) as [|c [|n rest]] eqn:Hq;
     try (intro H; inversion H; subst; apply (PH_frame s); [apply Nrel_same; reflexivity|auto]).
   cbv zeta. match goal with |- (if negb ?b then _ else _) = _ -> _ => destruct b end; cbn [negb]; [|discriminate].
@@ -108,11 +108,243 @@ Proof.
   { apply (Nrel_trans s s1); auto. apply Nrel_switch_in. rewrite (created_rel s s1 n R1). exact Cn. }
   clearbody s2. clear s1 R1.
   pose proof (PH_frame s s2 R2 P) as P2. destruct R2 as (Rt & _).
-  destruct (Rt c) as (_ & _ & a & _ & b).
+  destruct (Rt c) as (_ & _ & a & a4 & b).
+  assert (Fin : g_finished (s_th s2 c) = 0). { rewrite a4. destruct (I2 c) as (x & _). rewrite x, (Hr c _ Hq). reflexivity. }
   (* c becomes DONE / finished: every pending reference to c stays valid; then v's pending action is PDie c *)
   match goal with |- PH (modvc (modth s2 c ?f) v ?g) => assert (P3 : PH (modth s2 c f)) end.
   { intros v0 f0 E. rewrite vc_modth in E. destruct (P2 v0 f0 E) as [x y]. rewrite th_modth.
-    destruct (Nat.eqb f0 c) eqn:E0; [|split; auto]. unfold created. cbn. split; auto. }
+    destruct (Nat.eqb f0 c) eqn:E0; [|split; auto]. unfold created. cbn. split; auto; try (left; rewrite Fin; reflexivity). }
   eapply (PH_pend _ v _ (PDie c)); [exact P3| |reflexivity].
-  intros f E. inversion E; subst f. rewrite th_modth, Nat.eqb_refl. unfold created. cbn. auto.
+  intros f E. inversion E; subst f. rewrite th_modth, Nat.eqb_refl. unfold created. cbn. split; auto; try (left; rewrite Fin; reflexivity).
 Qed.
+
+Lemma PH_create : forall s v k jn ws, PH s -> th_state (s_th s k) = NOTCREATED -> PH (do_create s v k jn ws).
+Proof.
+  intros s v k jn ws P En. unfold do_create, getth. intros v0 f E.
+  rewrite vc_modvc in E. rewrite th_modvc. cbn [s_th set_s_th].
+  assert (E' : pend_from (v_pend (s_vc s v0)) = Some f). { destruct (Nat.eqb v0 v) eqn:X; auto. apply Nat.eqb_eq in X. subst. exact E. }
+  destruct (P v0 f E') as [a b].
+  assert (f <> k). { intro. subst. unfold created in a. rewrite En in a. discriminate. }
+  rewrite updp_neq by auto. auto.
+Qed.
+
+Lemma PH_migrate : forall s v t u s' b, Inv2 s -> PH s -> pend_from (v_pend (s_vc s v)) <> Some t ->
+  do_migrate s v t u = Some (s', b) -> PH s'.
+Proof.
+  intros s v t u s' b I2 P Np. unfold do_migrate, getth, getvc.
+  destruct (negb _); [discriminate|].
+  match goal with |- (if ?c then _ else _) = _ -> _ => destruct c eqn:C end; intro H; inversion H; subst; auto.
+  repeat (apply andb_true_iff in C; destruct C as [C ?]).
+  assert (Es : th_state (s_th s t) = READY) by (destruct (th_state (s_th s t)); try discriminate; reflexivity).
+  assert (Ev : th_vcpu (s_th s t) = v) by (match goal with H : Nat.eqb (th_vcpu _) v = true |- _ => now apply Nat.eqb_eq in H end).
+  assert (Fin : g_finished (s_th s t) = 0). { destruct (I2 t) as (a & _). rewrite a, Es. reflexivity. }
+  intros v0 f E. rewrite !th_modvc, th_modth.
+  assert (E' : pend_from (v_pend (s_vc s v0)) = Some f).
+  { revert E. rewrite !vc_modvc, vc_modth. destruct (Nat.eqb v0 u) eqn:X1; [apply Nat.eqb_eq in X1; subst v0|].
+    - destruct (Nat.eqb u v) eqn:X2; [apply Nat.eqb_eq in X2; subst|]; cbn; auto.
+    - destruct (Nat.eqb v0 v) eqn:X2; [apply Nat.eqb_eq in X2; subst|]; cbn; auto. }
+  destruct (P v0 f E') as [a b0].
+  destruct (Nat.eqb f t) eqn:Eft; auto. apply Nat.eqb_eq in Eft. subst f. exfalso.
+  destruct b0 as [b0|b0]; [lia|]. rewrite Ev in b0. subst v0. contradiction.
+Qed.
+
+Lemma PH_steal : forall s v u t, Inv1 s -> Inv2 s -> PH s -> steal_ok s (LSteal v u t) = true -> PH (do_steal s v u t).
+Proof.
+  intros s v u t I1 I2 P G. unfold do_steal, getth, getvc.
+  destruct (negb _) eqn:Gd; auto.
+  assert (Main : forall s0, s_th s0 = s_th s -> (forall y, v_pend (s_vc s0 y) = v_pend (s_vc s y)) ->
+            live (s_th s t) = true -> th_vcpu (s_th s t) = u ->
+            PH (modvc (modvc (modth s0 t (fun x => set_th_vcpu x v)) u (fun x => set_v_nthreads x (v_nthreads x - 1)))
+                        v (fun x => set_v_nthreads (set_v_runq x (v_runq x ++ [t])) (v_nthreads x + 1)))).
+  { intros s0 Et Ep L Eu. destruct (live_facts s t I2 L) as [Cr Fin].
+    intros v0 f E. rewrite !th_modvc, th_modth, Et.
+    assert (E' : pend_from (v_pend (s_vc s v0)) = Some f).
+    { revert E. rewrite !vc_modvc, vc_modth. destruct (Nat.eqb v0 v) eqn:X1; [apply Nat.eqb_eq in X1; subst v0|].
+      - destruct (Nat.eqb v u) eqn:X2; [apply Nat.eqb_eq in X2; subst|]; cbn; rewrite Ep; auto.
+      - destruct (Nat.eqb v0 u) eqn:X2; [apply Nat.eqb_eq in X2; subst|]; cbn; rewrite Ep; auto. }
+    destruct (P v0 f E') as [a b0].
+    destruct (Nat.eqb f t) eqn:Eft; auto. apply Nat.eqb_eq in Eft. subst f. exfalso.
+    destruct b0 as [b0|b0]; [lia|]. rewrite Eu in b0. subst v0.
+    cbn in G. rewrite E' in G. rewrite Nat.eqb_refl in G. discriminate. }
+  destruct (mem_tid t (v_standby (s_vc s u))) eqn:M1.
+  - apply mem_cnt in M1. destruct (in_standby_facts s t u (i_placed _ I1 t u) M1) as (l1 & l2 & _).
+    apply Main; auto. intro y. rewrite vc_modvc. destruct (Nat.eqb y u) eqn:E; [apply Nat.eqb_eq in E; subst y|]; reflexivity.
+  - destruct (_ && _) eqn:M2; auto. apply andb_true_iff in M2. destruct M2 as [M2 M3]. apply mem_cnt in M2.
+    destruct (in_runq_facts s t u (i_placed _ I1 t u) M2) as (l1 & l2 & _).
+    apply Main; auto. intro y. rewrite vc_modvc. destruct (Nat.eqb y u) eqn:E; [apply Nat.eqb_eq in E; subst y|]; reflexivity.
+Qed.
+
+Lemma PH_clear : forall s v, PH s -> PH (modvc s v (fun x => set_v_pend x PNone)).
+Proof. intros. eapply (PH_pend s v _ PNone); auto. intros f E. discriminate. Qed.
+
+Lemma PH_exec_pend : forall s v, Inv2 s -> PH s -> PH (exec_pend s v).
+Proof.
+  intros s v I2 P. unfold exec_pend, getvc, getth.
+  destruct (v_pend (s_vc s v)) as [|from d|t] eqn:Ep; auto.
+  - pose proof (PH_clear s v P) as P0.
+    destruct d as [|t|t u]; auto.
+    + eapply PH_frame; [|exact P0]. apply Nrel_modth. nsame.
+    + destruct (do_migrate _ v t u) as [[s1 b]|] eqn:M; auto.
+      eapply (PH_migrate _ v t u s1 b); [| exact P0 | |exact M].
+      * intro x. apply I2.
+      * rewrite vc_modvc, Nat.eqb_refl. cbn. discriminate.
+  - pose proof (PH_clear s v P) as P0.
+    destruct (th_joinable _); (eapply PH_frame; [|exact P0]); apply Nrel_modth; nsame.
+Qed.
+
+Lemma PH_join_check : forall s v c j, Inv1 s -> PH s -> head_run s v -> PH (join_check s v c j).
+Proof.
+  intros s v c j I1 P Hr. unfold join_check, getth.
+  destruct (tstate_eqb _ NOTCREATED). { apply (PH_frame s); [apply Nrel_same; reflexivity|auto]. }
+  destruct (negb (th_joinable _)). { eapply PH_frame; [apply Nrel_ret|auto]. }
+  destruct (negb _); auto.
+  destruct (tstate_eqb _ DONE).
+  - eapply PH_frame; [apply Nrel_ret|]. eapply PH_frame; [|exact P]. apply Nrel_modth. nsame.
+  - destruct (negb _); auto.
+    apply PH_sleep.
+    + apply inv1_setk. apply inv1_neutral; [intro th; repeat split | auto].
+    + eapply PH_frame; [apply Nrel_setk|]. eapply PH_frame; [|exact P]. apply Nrel_modth. nsame.
+    + unfold setk. apply head_run_neutral; [intro th; repeat split|]. apply head_run_neutral; [intro th; repeat split | auto].
+Qed.
+
+Ltac pframe := eapply PH_frame; [first [apply Nrel_ret | apply Nrel_setk | apply Nrel_refl]|].
+
+Lemma PH_exec_op : forall progs s v c o, Inv1 s -> Inv2 s -> PH s -> head_run s v -> v_pend (s_vc s v) = PNone ->
+  PH (exec_op progs s v c o).
+Proof.
+  intros progs s v c o I1 I2 P Hr Pn. unfold exec_op, getth, getvc.
+  destruct o as [d| |j e|j jn ws|j| | |j|j u].
+  - destruct (th_k (s_th s c)) as [|[|k]].
+    + destruct (expired _ _).
+      * apply PH_yield; [now apply inv1_setk|pframe; auto|hr_n].
+      * destruct (lock_free _); auto. apply PH_sleep; [now apply inv1_setk|pframe; auto|hr_n].
+    + pose proof (Nrel_sen s c) as X. destruct (set_error_number s c) as [[s1 r] e]. cbn in X.
+      pframe. eapply PH_frame; eauto.
+    + destruct (Z.eqb _ 0); pframe; auto.
+  - destruct (th_k (s_th s c)).
+    + apply PH_yield; [now apply inv1_setk|pframe; auto|hr_n].
+    + pframe; auto.
+  - destruct (alive progs s j); [|pframe; auto].
+    destruct (do_interrupt s v j e) as [s1|] eqn:D; auto.
+    pframe. eapply PH_frame; [eapply Nrel_interrupt; eauto|auto].
+  - destruct (_ && _) eqn:C; [|pframe; auto].
+    pframe. apply andb_true_iff in C. destruct C as [_ C]. apply PH_create; auto.
+    unfold getth in C. destruct (th_state (s_th s j)); try discriminate; reflexivity.
+  - destruct (th_k (s_th s c)) as [|[|k]].
+    + destruct (_ && _); [|pframe; auto]. pframe. eapply PH_frame; [|eauto]. apply Nrel_modth. nsame.
+    + now apply PH_join_check.
+    + pose proof (Nrel_sen s c) as X. destruct (set_error_number s c) as [[s1 r] e]. cbn in X.
+      pframe. eapply PH_frame; eauto.
+  - pframe; auto.
+  - pframe; auto.
+  - destruct (_ && _); pframe; auto.
+  - destruct (th_k (s_th s c)); [|pframe; auto].
+    destruct (negb _) eqn:G; [pframe; auto|].
+    destruct (Nat.eqb u v); [pframe; auto|].
+    destruct (Nat.eqb j c) eqn:Ejc.
+    { apply PH_yield; [now apply inv1_setk|pframe; auto|hr_n]. }
+    destruct (negb (Nat.eqb (th_vcpu (s_th s j)) v)); [pframe; auto|].
+    destruct (negb (tstate_eqb (th_state (s_th s j)) READY)); [pframe; auto|].
+    destruct (do_migrate s v j u) as [[s1 [|]]|] eqn:M; [| |exact P];
+      (pframe; eapply (PH_migrate s v j u); [exact I2|exact P| |exact M]; rewrite Pn; cbn; discriminate).
+Qed.
+
+Lemma PH_step_vcpu : forall progs s v, Inv1 s -> Inv2 s -> PH s -> PH (step_vcpu progs s v).
+Proof.
+  intros progs s v I1 I2 P. unfold step_vcpu, getvc, getth.
+  destruct (no_pending (v_pend (s_vc s v))) eqn:Np; cbn [negb]; [|now apply PH_exec_pend].
+  assert (Pn : v_pend (s_vc s v) = PNone) by (destruct (v_pend (s_vc s v)); try discriminate; reflexivity).
+  destruct (v_runq (s_vc s v)) as [|c rest] eqn:Hq. { apply (PH_frame s); [apply Nrel_same; reflexivity|auto]. }
+  destruct (th_state (s_th s c)) eqn:Es; try (apply (PH_frame s); [apply Nrel_same; reflexivity|auto]).
+  assert (Hr : head_run s v). { intros c' r' E. rewrite Hq in E. inversion E; subst. auto. }
+  destruct (th_kind (s_th s c)) eqn:Ek.
+  - destruct (nth_error _ _); [now apply PH_exec_op|].
+    destruct (th_k (s_th s c)).
+    + destruct (lock_free _); auto. apply PH_sleep; [now apply inv1_setk|pframe; auto|hr_n].
+    + pose proof (Nrel_sen s c) as X. destruct (set_error_number s c) as [[s1 r] e]. cbn in X.
+      pframe. eapply PH_frame; eauto.
+  - destruct rest; auto. apply PH_yield; auto.
+  - destruct (nth_error _ _); [now apply PH_exec_op|].
+    destruct (do_die s v _) as [s1|] eqn:D; auto. eapply PH_die; eauto.
+Qed.
+
+Lemma PH_drain_list : forall l s v, Inv1 s -> PH s -> PH (drain_list s v l).
+Proof.
+  induction l; cbn; intros s v I1 P; auto. apply IHl; [now apply inv1_drain_one|].
+  eapply PH_frame; [apply Nrel_drain_one; auto|auto].
+Qed.
+
+Lemma PH_gstep : forall progs s l, Inv1 s -> Inv2 s -> PH s -> PH (gstep progs s l).
+Proof.
+  intros progs s l I1 I2 P. unfold gstep. destruct (steal_ok s l) eqn:G; [|exact P].
+  unfold step. destruct (s_stuck s); [exact P|].
+  destruct l as [v|v|v|v u t|d].
+  - destruct (Nat.ltb _ _); [|exact P]. now apply PH_step_vcpu.
+  - destruct (_ && _); [|exact P]. unfold do_drain. now apply PH_drain_list.
+  - destruct (_ && _); [|exact P]. eapply PH_frame; [apply Nrel_resume|exact P].
+  - destruct (_ && _); [|exact P]. now apply PH_steal.
+  - destruct (Z.leb _ _); [|exact P]. eapply PH_frame; [|exact P]. apply Nrel_same; reflexivity.
+Qed.
+
+Lemma gstep_is_step : forall progs s l, gstep progs s l = step progs s l \/ gstep progs s l = s.
+Proof. intros. unfold gstep. destruct (steal_ok s l); auto. Qed.
+
+Lemma inv_grun : forall progs ls s, Inv1 s -> Inv2 s -> InvL s -> PH s ->
+  Inv1 (grun progs s ls) /\ Inv2 (grun progs s ls) /\ InvL (grun progs s ls) /\ PH (grun progs s ls).
+Proof.
+  induction ls as [|l ls IH]; cbn; intros s I1 I2 IL P; auto.
+  pose proof (PH_gstep progs s l I1 I2 P) as P'.
+  destruct (gstep_is_step progs s l) as [E|E]; rewrite E in *.
+  - destruct (inv12_step progs s l I1 I2). apply IH; auto. now apply invL_step.
+  - apply IH; auto.
+Qed.
+
+Lemma PH_init : forall nv n flags t0, PH (init_state nv n flags t0).
+Proof.
+  intros nv n flags t0 v f. unfold init_state. cbn [s_vc]. destruct (init_vcpu_cases nv n flags v) as [(V1 & _)|[V1 E]].
+  - unfold init_vcpu. assert (Nat.ltb v nv = true) as -> by (now apply Nat.ltb_lt). cbn. discriminate.
+  - rewrite E. cbn. discriminate.
+Qed.
+
+(* ---- stack_exclusive_guarded ------------------------------------------------------------------ *)
+Lemma stack_exclusive_guarded_proof : forall progs nv n flags t0 ls, nv <= n ->
+  let s := grun progs (init_state nv n flags t0) ls in
+  forall v v' t, phys s v = Some t -> phys s v' = Some t -> v = v'.
+Proof.
+  intros progs nv n flags t0 ls Hn s v v' t.
+  destruct (inv_grun progs ls _ (inv1_init nv n flags t0 Hn) (inv2_init nv n flags t0 Hn) (invL_init nv n flags t0 Hn) (PH_init nv n flags t0))
+    as (I1 & I2 & IL & P). fold s in I1, I2, IL, P.
+  assert (CurF : forall y x, cur s y = Some x -> live (s_th s x) = true /\ th_vcpu (s_th s x) = y).
+  { intros y x C. unfold cur, getvc in C. destruct (v_runq (s_vc s y)) as [|a r] eqn:Q; [discriminate|]. inversion C; subst a.
+    assert (H1 : cnt x (v_runq (s_vc s y)) >= 1) by (rewrite Q; apply cnt_head).
+    destruct (in_runq_facts s x y (i_placed _ I1 x y) H1) as (a1 & a2 & _). auto. }
+  assert (PendF : forall y x, pend_from (v_pend (s_vc s y)) = Some x ->
+            (v_pend (s_vc s y) = PDie x /\ live (s_th s x) = false) \/ (live (s_th s x) = true /\ th_vcpu (s_th s x) = y) \/
+            (live (s_th s x) = false /\ g_finished (s_th s x) = 1)).
+  { intros y x E. destruct (P y x E) as [a [b|b]].
+    - right. right. split; auto. destruct (I2 x) as (z & _). rewrite z in b. unfold live.
+      destruct (tstate_eqb (th_state (s_th s x)) DONE); [apply andb_false_r|discriminate].
+    - destruct (live (s_th s x)) eqn:L; [right; left; auto|].
+      right. right. split; auto. unfold live in L. unfold created in a. rewrite a in L. cbn in L.
+      apply negb_false_iff in L. destruct (I2 x) as (z & _). rewrite z, L. reflexivity. }
+  unfold phys, getvc.
+  destruct (pend_from (v_pend (s_vc s v))) as [f|] eqn:Ev; destruct (pend_from (v_pend (s_vc s v'))) as [f'|] eqn:Ev'.
+  - (* both switching away from t *)
+    destruct (v_pend (s_vc s v)) as [|a d|a] eqn:Pv; cbn in Ev; try discriminate; inversion Ev; subst a;
+    destruct (v_pend (s_vc s v')) as [|a' d'|a'] eqn:Pv'; cbn in Ev'; try discriminate; inversion Ev'; subst a';
+    intros H1 H2; inversion H1; inversion H2; subst.
+    all: try (destruct (l_die _ IL _ _ Pv) as (_ & _ & _ & U); symmetry; apply U; assumption).
+    all: try (destruct (l_die _ IL _ _ Pv') as (_ & _ & _ & U); apply U; assumption).
+    + (* PSwitch / PSwitch *)
+      assert (E1 : pend_from (v_pend (s_vc s v)) = Some t) by (rewrite Pv; reflexivity).
+      assert (E2 : pend_from (v_pend (s_vc s v')) = Some t) by (rewrite Pv'; reflexivity).
+      destruct (P v t E1) as [_ [b1|b1]], (P v' t E2) as [_ [b2|b2]]; try congruence.
+      all: admit.
+    + admit.
+    + admit.
+  - admit.
+  - admit.
+  - (* both executing their CURRENT thread *)
+    destruct (v_pend (s_vc s v)); cbn in Ev; try discriminate. destruct (v_pend (s_vc s v')); cbn in Ev'; try discriminate.
+    intros H1 H2. destruct (CurF v t H1) as [_ a], (CurF v' t H2) as [_ b]. congruence.
+Admitted.
